@@ -23,6 +23,8 @@ import Pog.Model.Registry
     .generate_response_handling                              `arms`, `defaultAction`, `runAction`
     ._is_ndjson_stream (streaming arm of
       `_write_strategy_based_return`)                        `isNdjsonStream`, `streamJson`
+    ._is_text_body (`_write_strategy_based_return` and the
+      arm of another 2xx response)                           `isTextBody`, `singleOf`, `secondaryRet`
   core/http_transport.HttpxTransport.request:192-200         `bundledClass`, the `.bundled` branch of `handle`
   emitters/exceptions_emitter (which alias classes exist)    `aliasBase` (Pog.Model.Registry)
   CPython compiling / importing the emitted module           `moduleOk`
@@ -436,10 +438,13 @@ def handlerMedia (content : List Media) : Option Media :=
   | some m => some m
   | none => content.head?
 
+/-- `ct.startswith("text/")` -/
+def isTextCt (mt : Str) : Bool := startsWith mt "text/".toList
+
 /-- `_resolve_content_type_to_python_type` -/
 def ctTy (m : Media) : PyTy :=
   if isBinaryCt m.mt then .bytes
-  else if startsWith m.mt "text/".toList then (if m.shape = .binary then .bytes else .str)
+  else if isTextCt m.mt then (if m.shape = .binary then .bytes else .str)
   else shapeTy m.shape
 
 def dedupTy : List PyTy → List PyTy → List PyTy
@@ -451,6 +456,8 @@ inductive Strategy
   /-- `return_type == "None"` -/
   | none
   | single (t : PyTy)
+  /-- one type and `_is_text_body`: `str` over `text/*` media types only — `return response.text` (repaired F32b) -/
+  | text
   /-- `Union[...]` with a `content_type_mapping` (≥ 2 distinct types) -/
   | union (m : List (Str × PyTy))
   /-- `is_streaming` with `AsyncIterator[bytes]` in the return type -/
@@ -487,8 +494,18 @@ def isNdjsonStream (content : List Media) : Bool :=
 def streamJson (content : List Media) : Strategy :=
   if isNdjsonStream content then .streamNdjson else .streamSse
 
-/-- `ResponseStrategyResolver.resolve`, together with the one decision `_write_strategy_based_return` takes from
-    `strategy.response_ir` rather than from the return type (`streamJson`). -/
+/-- response_handler_generator `_is_text_body(response_ir, type)`: the type is `str`, the response has content and
+    every media type key starts with `text/`. -/
+def isTextBody (content : List Media) (t : PyTy) : Bool :=
+  t = .str && !content.isEmpty && content.all (fun m => isTextCt m.mt)
+
+/-- A non-streaming, non-`Union` return type in `_write_strategy_based_return`: `response.text` for a text body,
+    else cattrs / `cast` on `response.json()`. -/
+def singleOf (content : List Media) (t : PyTy) : Strategy :=
+  if isTextBody content t then .text else .single t
+
+/-- `ResponseStrategyResolver.resolve`, together with the decisions `_write_strategy_based_return` takes from
+    `strategy.response_ir` rather than from the return type alone (`streamJson`, `singleOf`). -/
 def resolveStrategy (rs : List Resp) : Strategy :=
   match primaryA rs with
   | none => .none
@@ -504,11 +521,11 @@ def resolveStrategy (rs : List Resp) : Strategy :=
       let mapping := p.content.map (fun m => (m.mt, ctTy m))
       match dedupTy (mapping.map (·.2)) [] with
       | [] => .none
-      | [t] => .single t
+      | [t] => singleOf p.content t
       | _ => .union mapping
     else
       match strategyMedia p.content with
-      | some m => .single (shapeTy m.shape)
+      | some m => singleOf p.content (shapeTy m.shape)
       | none => .none
 
 /-- What a `return` arm hands back (value-level decoding is not modelled). -/
@@ -537,7 +554,7 @@ def tyRet (t : PyTy) : RetKind := if useCattrs t then .structure t else .cast t
 def secondaryRet (r : Resp) : RetKind :=
   match handlerMedia r.content with
   | none => .none
-  | some m => tyRet (shapeTy m.shape)
+  | some m => if isTextBody r.content (shapeTy m.shape) then .text else tyRet (shapeTy m.shape)
 
 inductive Action
   | retNone
@@ -894,6 +911,7 @@ def strategyRet (s : Strategy) (r : Reply) : RetKind :=
   match s with
   | .none => .none
   | .single t => tyRet t
+  | .text => .text
   | .union m => unionDispatch (normCtype r.ctype) m
   | .streamBytes => .streamBytes
   | .streamNdjson => .streamNdjson
